@@ -8,7 +8,7 @@ the full class dispatch; calls whose domain is narrower than the specification
 """
 import ast
 
-from ..astutil import body_raises, call_simple_name, dotted, enclosing_stmt, guard_chain, names_in, pm, pmall, short
+from ..astutil import body_raises, call_simple_name, conjuncts, dotted, enclosing_stmt, guard_chain, names_in, pm, pmall, short
 from ..callgraph import EXACT, get_callgraph
 from ..cfg import ReachingDefs, call_name, cfg_of, node_calls
 from ..loader import AnalysisError, ClassInfo, FunctionInfo, body_walk, norm, walk_no_nested
@@ -39,6 +39,8 @@ def run(ctx):
     ctx.do(rule_absent_values)
     ctx.do(rule_presence_by_membership)
     ctx.do(rule_bounds_are_legal)
+    ctx.do(rule_category_tables)
+    ctx.do(rule_conditional_defaults)
     from .regexlang import rule_regex_languages
     ctx.do(rule_regex_languages, "C03.regex-language", ["complete"])
     run.floor("C03.regex-language", 5)
@@ -387,6 +389,55 @@ def rule_container_dispatch(ctx):
                   expected="valid_refs = {k: v['type'] for k, v in dictified.items()} before the loop, not modified in it",
                   found=[short(v) for _, v in defs if isinstance(v, ast.AST)] + [short(m) for m in mut])
     run.floor(R, 4)
+
+
+CATEGORY_EXCLUSIONS = {
+    # is_sdo: registered in "objects" and not one of these (STIX 2.1 section 2: relationship objects, meta objects, bundle)
+    "stix2.utils::is_sdo": ["bundle", "language-content", "marking-definition", "relationship", "sighting"],
+    "stix2.utils::is_sro": ["relationship", "sighting"],
+}
+
+
+def rule_category_tables(ctx):
+    """Reference slots are declared by CATEGORY (valid_types=['SCO', 'SDO', 'SRO']); which registered types a category holds is
+    decided by the literal sets in is_sdo / is_sro.  They are compared with the frozen table: a type moved out of a category
+    makes every whitelist naming the category refuse references the pinned tree accepts (report.object_refs ->
+    extension-definition), a type moved in makes blacklists refuse."""
+    run = ctx.run
+    prog = ctx.prog
+    R = "C03.ref-generics"
+    for fid, want in sorted(CATEGORY_EXCLUSIONS.items()):
+        fi = prog.func(fid)
+        sets = [sorted(e.value for e in x.elts if isinstance(e, ast.Constant)) for x in body_walk(fi.node)
+                if isinstance(x, (ast.Set, ast.Tuple, ast.List)) and x.elts and all(isinstance(e, ast.Constant) and isinstance(e.value, str) for e in x.elts)]
+        run.check(sets == [want], R, key(fi.module.relpath, fi.qualname, "category-table"),
+                  "the literal type set that delimits this category changed: reference whitelists / blacklists given by category "
+                  "accept or refuse other types than before", file=fi.module.relpath, line=fi.node.lineno, function=fi.qualname,
+                  expected=want, found=sets)
+
+
+def rule_conditional_defaults(ctx):
+    """indicator.pattern_version: 'for patterns written in the STIX Patterning language the default is the specification
+    version' -- a default the specification ties to pattern_type == 'stix'.  The constructor sets it under exactly that
+    condition; set unconditionally, a snort / yara / pcre indicator parsed without pattern_version is re-serialised WITH one
+    (more than 'optional properties at their default value' is added)."""
+    run = ctx.run
+    prog = ctx.prog
+    R = "C03.absent-values"
+    init = prog.cls("stix2.v21.sdo::Indicator").methods.get("__init__")
+    if init is None:
+        raise AnalysisError("anchor missing: v21 Indicator.__init__")
+    kw = init.kwarg or "kwargs"
+    sets = [a_ for a_ in body_walk(init.node) if isinstance(a_, ast.Assign) and norm(a_.targets[0]) == "%s['pattern_version']" % kw]
+    if not sets:
+        raise AnalysisError("v21 Indicator.__init__ no longer defaults pattern_version (rule out of date)")
+    for a_ in sets:
+        cj = [norm(c_) for t, pol, _ in guard_chain(a_) if pol for c_ in conjuncts(t)]
+        ok = "%s.get('pattern_type') == 'stix'" % kw in cj and any("pattern_version" in c_ and c_.startswith("not ") for c_ in cj)
+        run.check(ok, R, key(init.module.relpath, init.qualname, "pattern_version-default-only-for-stix-patterns"),
+                  "pattern_version is defaulted under another condition than 'a STIX pattern without pattern_version': indicators of "
+                  "other pattern types come back from a round trip with a pattern_version they never had", file=init.module.relpath,
+                  line=a_.lineno, function=init.qualname, expected="pattern_type == 'stix' and no pattern_version given", found=cj)
 
 
 def rule_bounds_are_legal(ctx):
